@@ -82,7 +82,7 @@ func VerifH05a() {
 			vec = append(vec, batch)
 		}
 	} else {
-		if sym.Tier(0, 1) == 1 {
+		if sym.Tier(0, 1) == 1 && !op.IsComparisonOperator() {
 			vec = stub.SymStream("v", len(series), shape, t0, dt)
 		} else {
 			vec = stub.SymStreamFocus("v", len(series), shape, t0, dt)
